@@ -36,7 +36,7 @@ func parseSparseShares(shares []Share) (blobs []*Blob, err error) {
 			sequences = append(sequences, sequence{
 				ns:           share.Namespace(),
 				shareVersion: version,
-				data:         share.RawData(),
+				data:         append([]byte(nil), share.RawData()...), // copy: extended below, must not grow into the caller's buffer
 				sequenceLen:  share.SequenceLen(),
 				signer:       GetSigner(share),
 			})
